@@ -734,7 +734,14 @@ def fam_grid(ctx, rec, c):
     rec.event('rays_recomputed', npts * npts)
     xr = P[-1, :, 0].reshape(npts, npts)
     yr = P[-1, :, 1].reshape(npts, npts)
-    sc = max(1e-300, float(np.nanmax(np.abs(np.concatenate([xr.ravel(), yr.ravel()])))))
+    _fin = np.concatenate([xr.ravel(), yr.ravel()])
+    _fin = np.abs(_fin[np.isfinite(_fin)])
+    # (no chief ray of the grid reaches the image: the paraxial grid alone sets the scale)
+    sc = max(1e-300, float(np.max(_fin))) if _fin.size else None
+    if sc is None:
+        rec.cls('grid-no-real-ray-reaches-image')
+        u_ = abs(float(ctx.parax_chief_unit(w)))
+        sc = u_ if np.isfinite(u_) and u_ > 0 else 1.0
     rec.close('grid-distortion-real', np.stack([d['xr'], d['yr']]), np.stack([xr, yr]), 1e-12, scale=sc,
               msg='real grid != image coordinates of the chief rays of the (Hx, Hy) grid')
     unit = ctx.parax_chief_unit(w)
